@@ -14,6 +14,7 @@ import (
 	"runtime/debug"
 	"sort"
 	"strconv"
+	"strings"
 	"sync"
 	"testing"
 	"time"
@@ -397,6 +398,10 @@ type Prop[C any] struct {
 var knownMu sync.Mutex
 var knownSeen = map[string]bool{}
 
+// IsInfra tells a harness failure (marked INCOMPLETE by the code that met it)
+// from a verdict on the code under test.
+func IsInfra(msg string) bool { return strings.Contains(msg, "INCOMPLETE:") }
+
 // Run drives p under rapid (or replays a single file).
 func Run[C any](t *testing.T, p Prop[C]) *Rec {
 	t.Helper()
@@ -416,6 +421,9 @@ func Run[C any](t *testing.T, p Prop[C]) *Rec {
 		var msg string
 		if pm := Safely(func() { msg = p.Judge(c, rec) }); pm != "" {
 			msg = pm
+		}
+		if msg != "" && IsInfra(msg) {
+			t.Fatalf("VERIF-INFRA %s", msg)
 		}
 		if msg != "" {
 			fmt.Printf("\nVERIF-FAIL property=%s sub=%s replay=%s\n", p.ID, p.Sub, rp)
@@ -445,6 +453,11 @@ func Run[C any](t *testing.T, p Prop[C]) *Rec {
 	t.Cleanup(func() {
 		rec.Flush(complete)
 		if t.Failed() && last != nil {
+			if IsInfra(last.msg) {
+				// the harness could not do its work (worker lost, missing tool): not a statement about the code
+				fmt.Printf("\nVERIF-INFRA property=%s sub=%s %s\n", p.ID, p.Sub, last.msg)
+				return
+			}
 			WriteFailure(p.ID, p.Sub, last.msg, last.c)
 		}
 	})
